@@ -13,7 +13,8 @@ import re
 import genlib as G
 
 F = "routee-compass/src/app/compass/response/response_sink.rs"
-OBLIGATIONS = ["write_response", "lemma_one_whole_record_per_file_sink"]
+FP = "routee-compass/src/app/compass/response/response_output_policy.rs"
+OBLIGATIONS = ["write_response", "build", "lemma_one_whole_record_per_file_sink"]
 MUST_FAIL = ["vacuity_probe"]
 
 HEAD = """#![allow(unused_imports, unused_variables, dead_code, unused_mut, unused_parens, unused_assignments)]
@@ -68,6 +69,20 @@ impl CountMutex {
 }
 /// std::mem::drop of a guard (ends its critical section; nothing is written)
 pub fn drop<T>(t: T) { }
+// ---- what ResponseOutputPolicy::build needs ----
+#[verifier::external_body] pub struct FileH { _p: u8 }                 // std::fs::File
+#[verifier::external_body] pub struct PathBuf { _p: u8 }
+pub enum WriteMode { Append, Overwrite, Error }
+impl WriteMode {
+    /// opens the output file (the header logic of write_mode.rs: native witness only)
+    #[verifier::external_body] pub fn open_file(&self, path: &PathBuf, format: &ResponseOutputFormat) -> (r: Result<FileH, CompassAppError>) { unimplemented!() }
+}
+#[verifier::external_body] pub fn verif_path(filename: &String) -> PathBuf { unimplemented!() }
+impl FileMutex { #[verifier::external_body] pub fn new(f: FileH) -> FileMutex { unimplemented!() } }
+impl CountMutex { #[verifier::external_body] pub fn new(v: u64) -> CountMutex { unimplemented!() } }
+impl Clone for ResponseOutputFormat { #[verifier::external_body] fn clone(&self) -> (r: Self) ensures r == *self { unimplemented!() } }
+impl ResponseOutputFormat { #[verifier::external_body] pub fn delimiter(&self) -> Option<String> { unimplemented!() } }
+#[verifier::external_body] pub fn verif_err_flush_rate(rate: &i64) -> CompassAppError { unimplemented!() }
 #[verifier::external_body] pub fn verif_err_poison(e: PoisonError) -> CompassAppError { unimplemented!() }
 #[verifier::external_body] pub fn verif_err_io(e: IoError) -> CompassAppError { unimplemented!() }
 """
@@ -110,6 +125,26 @@ pub open spec fn file_sinks_all(ps: Seq<Box<ResponseSink>>, n: int) -> nat decre
 pub proof fn lemma_all_wf_at(ps: Seq<Box<ResponseSink>>, n: int, k: int)
     requires all_wf(ps, n), 0 <= k < n <= ps.len() ensures sink_wf(*ps[k]) decreases n
 { if k < n - 1 { lemma_all_wf_at(ps, n - 1, k); } }
+/// the sink built from a policy has the policy's shape: same kind, same file name and format, the configured flush rate (1 when none is configured), members in order
+pub open spec fn mirrors(p: ResponseOutputPolicy, s: ResponseSink) -> bool decreases p {
+    match p {
+        ResponseOutputPolicy::None => s is None,
+        ResponseOutputPolicy::File { filename, format, file_flush_rate } => s matches ResponseSink::File { filename: f2, format: fmt2, iterations_per_flush: n, .. }
+            && f2@ == filename@ && fmt2 == format && n == (match file_flush_rate { Some(r) => r as int, None => 1 }),
+        ResponseOutputPolicy::Combined { policies } => s matches ResponseSink::Combined(ss) && ss@.len() == policies@.len() && all_mirror(policies@, ss@, policies@.len() as int),
+    }
+}
+pub open spec fn all_mirror(ps: Seq<Box<ResponseOutputPolicy>>, ss: Seq<Box<ResponseSink>>, n: int) -> bool decreases ps, n
+{ if n <= 0 || n > ps.len() || n > ss.len() { true } else { all_mirror(ps, ss, n - 1) && mirrors(*ps[n - 1], *ss[n - 1]) } }
+pub proof fn lemma_all_wf_push(ss: Seq<Box<ResponseSink>>, x: Box<ResponseSink>)
+    requires all_wf(ss, ss.len() as int), sink_wf(*x) ensures all_wf(ss.push(x), ss.len() as int + 1)
+{ lemma_all_wf_ext(ss, ss.push(x), ss.len() as int); }
+pub proof fn lemma_all_wf_ext(a: Seq<Box<ResponseSink>>, b: Seq<Box<ResponseSink>>, n: int)
+    requires all_wf(a, n), 0 <= n <= a.len() <= b.len(), forall|i: int| 0 <= i < n ==> a[i] == b[i] ensures all_wf(b, n) decreases n
+{ if n > 0 { lemma_all_wf_ext(a, b, n - 1); } }
+pub proof fn lemma_all_mirror_ext(ps: Seq<Box<ResponseOutputPolicy>>, a: Seq<Box<ResponseSink>>, b: Seq<Box<ResponseSink>>, n: int)
+    requires all_mirror(ps, a, n), 0 <= n <= a.len() <= b.len(), n <= ps.len(), forall|i: int| 0 <= i < n ==> a[i] == b[i] ensures all_mirror(ps, b, n) decreases n
+{ if n > 0 { lemma_all_mirror_ext(ps, a, b, n - 1); } }
 /// what a call may do to the log, whatever its outcome: nothing written earlier is touched, and every write it adds went through a guard whose critical
 /// section was opened DURING the call (the lock is taken by the call itself, for this record)
 pub open spec fn appends_in_own_sections(a: Log, b: Log) -> bool {
@@ -250,6 +285,29 @@ def build(x):
             self is None ==> r is Ok && *final(response) == *old(response) && *final(log) == *old(log),
         decreases self""")
     parts.append("impl ResponseSink {\n" + f.text + "\n}\n")
+    # ---- ResponseOutputPolicy::build: establishes the data invariant write_response relies on ----
+    pen, n_attr = G.strip_inner_attrs(x.item_text(FP, "enum ResponseOutputPolicy"))
+    parts.append(pen + "\n")
+    b = x.fn(FP, "impl ResponseOutputPolicy :: fn build")
+    b.rewrite(r"PathBuf::from\(filename\)", "verif_path(filename)", 1, 1, rule="R-path")
+    b.rewrite(r"Mutex::new\(file\)", "FileMutex::new(file)", 1, 1, rule="R3-dyn")
+    b.rewrite(r"let iterations: Arc<Mutex<u64>> = Arc::new\(Mutex::new\(0\)\);", "let iterations: Arc<CountMutex> = Arc::new(CountMutex::new(0));", 1, 1, rule="R3-dyn")
+    b.rewrite(r"CompassAppError::CompassFailure\(format!\((?:[^()]|\([^()]*\))*\)\)", "verif_err_flush_rate(rate)", 1, 1, rule="R-format")
+    pat = re.compile(r"let policies = policies\s*\.iter\(\)\s*\.map\(\|p\| (.*?)\)\s*\.collect::<Result<Vec<_>, _>>\(\)\?;", re.S)
+    if len(pat.findall(b.text)) != 1:
+        raise G.Undecided("lost anchor: the member pipeline of the Combined arm of ResponseOutputPolicy::build")
+    b.rewrite(pat.pattern, r"let verif_src = policies;\n                proof { assert(decreases_to!(*self => *verif_src)); }\n                let mut verif_out: Vec<Box<ResponseSink>> = Vec::new();\n                let mut verif_j: usize = 0;\n                while verif_j < verif_src.len() { let p = &verif_src[verif_j]; verif_j = verif_j + 1;\n                    proof { broadcast use vstd::std_specs::vec::axiom_vec_index_decreases; assert(decreases_to!(*verif_src => verif_src@[verif_j - 1])); }\n                    let ghost verif_o0 = verif_out@;\n                    let verif_x = (\1)?; verif_out.push(verif_x);\n                    proof { lemma_all_wf_push(verif_o0, verif_x); lemma_all_mirror_ext(verif_src@, verif_o0, verif_out@, verif_j - 1); }\n                }\n                let policies = verif_out;", 1, 1, rule="R-trycollect", flags=re.S)
+    x.note("R-trycollect", "ResponseOutputPolicy::build: `policies.iter().map(|p| F).collect::<Result<Vec<_>, _>>()?` written as a loop pushing `(F)?` (F = `p.build().map(Box::new)` verbatim)")
+    b.add_loop_spec(1, """                    invariant verif_j <= verif_src.len(), verif_out@.len() == verif_j, decreases_to!(*self => *verif_src),
+                        all_wf(verif_out@, verif_j as int), all_mirror(verif_src@, verif_out@, verif_j as int),
+                    decreases verif_src.len() - verif_j""")
+    b.name_return("r")
+    b.add_spec("""        ensures
+            // the data invariant write_response relies on (a flush rate <= 0 is refused here), and the sink has the policy's shape
+            r matches Ok(s) ==> sink_wf(s) && mirrors(*self, s),
+            self matches ResponseOutputPolicy::File { file_flush_rate: Some(rate), .. } && rate <= 0 ==> r is Err,
+        decreases self""")
+    parts.append("impl ResponseOutputPolicy {\n" + b.text + "\n}\n")
     parts.append(LEMMAS)
     parts.append("""
 // vacuity guard: MUST FAIL
